@@ -162,10 +162,13 @@ theorem readV_error (a : TVal α) (is : List Nat) (err : TErr) (h : readV a is =
       cases rest with
       | nil => simp only [readV] at h; split at h <;> simp at h; exact h.symm
       | cons j rest' =>
-        simp only [readV] at h
-        split at h
-        · exact ih _ h
-        · simp at h; exact h.symm
+        cases e with
+        | iter e0 =>
+          simp only [readV] at h
+          split at h
+          · exact ih _ h
+          · simp at h; exact h.symm
+        | _ => simp [readV] at h; exact h.symm
 
 theorem readV_agrees (g : Ctx) (idx : List (TE α)) : ∀ (is : List Nat) (a : TVal α) (k : Kind), is.length = idx.length →
     a.agrees k = true → accessOk g k idx = true → ∀ v, readV a is = .ok v → v.agrees (accessKind g k idx) = true := by
@@ -199,11 +202,14 @@ theorem readV_agrees (g : Ctx) (idx : List (TE α)) : ∀ (is : List Nat) (a : T
           · rename_i x hx; simp at hv; subst hv; simpa [accessKind] using agreesList_get vs _ hvs n x hx
           · simp at hv
         | cons j ns' =>
-          simp only [readV] at hv
-          split at hv
-          · rename_i e2 ws hx
-            exact ih (j :: ns') (.arr e2 ws) _ (by simpa using hl) (agreesList_get vs _ hvs n _ hx) hk v hv
-          · simp at hv
+          cases e' with
+          | iter e0 =>
+            simp only [readV] at hv
+            split at hv
+            · rename_i e2 ws hx
+              exact ih (j :: ns') (.arr e2 ws) _ (by simpa using hl) (agreesList_get vs _ hvs n _ hx) hk v hv
+            · simp at hv
+          | _ => simp [readV] at hv
 
 theorem accessOk_numeric (g : Ctx) (idx : List (TE α)) : ∀ k, accessOk g k idx = true → ∀ i ∈ idx, (i.typeOf g).isNumeric = true := by
   induction idx with
